@@ -492,6 +492,18 @@ func reverseFns[M ~map[int]int](x *cx, tn string, m M, inKey string) {
 			}
 			if bad || !same() {
 				x.wrong("xmaps.Reverse", in, got, "a map from each value to all the keys that mapped to it")
+			} else {
+				var vals []int
+				for v := range got {
+					vals = append(vals, v)
+				}
+				sort.Ints(vals)
+				names := make([]string, len(vals))
+				parts := make([][]int, len(vals))
+				for i, v := range vals {
+					names[i], parts[i] = fmt.Sprintf("for value %d", v), got[v]
+				}
+				partsIndependent(x, "xmaps.Reverse", in, names, parts, true, same)
 			}
 		}
 	}
